@@ -62,6 +62,16 @@ def handleStats (focus : String) (c : Case) : String := Id.run do
   for l in c.body do
     if l.getD 0 "" != "st" && l.contains "panic" then
       acc := { acc with mon := acc.mon.push s!"panic:{(joinToks l 0).take 80}" }
+  -- a model failure during the statistics (after a successful fit): fit_with_statistics must return
+  -- the fit result as Err, never Ok with statistics computed from fewer columns, never a panic
+  for l in c.linesWith "statfault" do
+    if attrStr l "reached" == "1" then
+      acc := { acc with compared := acc.compared + 1 }
+      let oc := attrStr l "outcome"
+      if oc != "returned" then
+        acc := { acc with mon := acc.mon.push s!"model-failure-in-statistics-call+{attrStr l "j"}:{oc.take 60}" }
+      else if attrStr l "ok" == "1" || attrStr l "hasstats" == "1" then
+        acc := { acc with mon := acc.mon.push s!"model-failure-in-statistics-call+{attrStr l "j"}:returned-Ok(hasstats={attrStr l "hasstats"})" }
   let some rl := c.firstWith "result" | return ({ acc with corr := acc.corr.push "no-result" }).render tagBase
   let kind := rl.getD 1 ""
   if kind == "hang" || kind == "panic" then
